@@ -129,7 +129,7 @@ Fixpoint ex_type (e : ex) : string :=
                    else if String.eqb (ex_type a) "int" && String.eqb (ex_type b) "int" then "int" else "double"
   end.
 
-Definition col_name (n : nat) : string := nm "_col1" n.
+Definition col_name (n : nat) : string := nm "_col1" n.   (* = mem_name "col1" n *)
 
 Definition prog (bk : backend) (e : ex) (n0 : nat) : program :=
   let '(ds, ss, c, n) := te (b_idiom bk) e n0 in
@@ -138,6 +138,85 @@ Definition prog (bk : backend) (e : ex) (n0 : nat) : program :=
      p_branches := [{| br_name := "col1"; br_var := col_name n |}];
      p_book_extra := [];
      p_body := Blk ds (app_stmts ss (SCons (SSet (col_name n) None c) (one_stmt (SFill (b_fill bk))))) |}.
+
+(* ---------- rows: several columns, scalar or vector ---------- *)
+Inductive column :=
+| ColScalar (e : ex)                                           (* an event-level value *)
+| ColVec (c : collref) (ps : list pred) (body : pa).           (* e.Coll("bank")[.Where(p)].Select(lambda x: body) *)
+Definition row := list (string * column).                      (* branch name, column *)
+
+Fixpoint ex_size (e : ex) : nat :=
+  match e with EInt _ => 0 | ECount _ => 3 | EBin _ a b => ex_size a + ex_size b end.
+Definition col_size (c : column) : nat := match c with ColScalar e => ex_size e | ColVec _ _ _ => 2 end.
+Fixpoint row_size (r : row) : nat := match r with [] => 0 | (_, c) :: t => col_size c + row_size t end.
+
+Definition vec_type (ty : string) : string := "std::vector<" +++ ty +++ ">".
+Definition col_type (c : column) : string :=
+  match c with ColScalar e => ex_type e | ColVec _ _ body => vec_type (pa_type body) end.
+
+(* class variable of column k: unique_name(name, is_class_var=True) after all per-event names *)
+Definition mem_name (name : string) (idx : nat) : string := nm ("_" +++ name) idx.
+
+Definition vcv_name (c : collref) (n : nat) : string := nm (c_base c) n.
+Definition tvec_loop (c : collref) (ps : list pred) (body : pa) (mem : string) (n : nat) : stmt :=
+  SFor (iv_name n) (CDeref (CVar (vcv_name c n)))
+       (Blk [] (one_stmt (fi_guards (map (tpred (iv_name n) (c_arrow c)) ps)
+                                    (SPush mem None (tpa (iv_name n) (c_arrow c) body))))).
+
+(* code of one column in the event block: declarations, statements, next index *)
+Definition tcol (idiom : string) (c : column) (mem : string) (n : nat) : list decl * stmts * nat :=
+  match c with
+  | ColScalar e => let '(ds, ss, _, n') := te idiom e n in (ds, ss, n')
+  | ColVec cr ps body =>
+      ([{| d_type := c_ctype cr; d_name := vcv_name cr n; d_init := None |}],
+       SCons (SFetch idiom (vcv_name cr n) (c_ctype cr) (c_bank cr) (fetch_lines idiom (c_ctype cr) (c_bank cr)))
+             (one_stmt (tvec_loop cr ps body mem n)),
+       S (S n))
+  end.
+
+(* all columns in order; member k is mem_name name_k (nf + k) *)
+Fixpoint trow (idiom : string) (r : row) (nf k n : nat) : list decl * stmts :=
+  match r with
+  | [] => ([], SNil)
+  | (name, c) :: t =>
+      let '(ds, ss, n') := tcol idiom c (mem_name name (nf + k)) n in
+      let '(dt, st) := trow idiom t nf (S k) n' in
+      (ds ++ dt, app_stmts ss st)
+  end.
+(* after the loops: the scalar columns are stored, in column order *)
+Fixpoint trow_sets (idiom : string) (r : row) (nf k n : nat) : stmts :=
+  match r with
+  | [] => SNil
+  | (name, c) :: t =>
+      match c with
+      | ColScalar e => let '(_, _, ce, n') := te idiom e n in SCons (SSet (mem_name name (nf + k)) None ce) (trow_sets idiom t nf (S k) n')
+      | ColVec _ _ _ => trow_sets idiom t nf (S k) (S (S n))
+      end
+  end.
+Fixpoint trow_clears (r : row) (nf k : nat) : stmts :=
+  match r with
+  | [] => SNil
+  | (name, c) :: t =>
+      match c with
+      | ColScalar _ => trow_clears t nf (S k)
+      | ColVec _ _ _ => SCons (SClear (mem_name name (nf + k))) (trow_clears t nf (S k))
+      end
+  end.
+Fixpoint row_members (r : row) (nf k : nat) : list member :=
+  match r with
+  | [] => []
+  | (name, c) :: t => {| m_type := col_type c; m_name := mem_name name (nf + k) |} :: row_members t nf (S k)
+  end.
+
+Definition prog_row (bk : backend) (r : row) (n0 : nat) : program :=
+  let nf := n0 + row_size r in
+  let '(ds, ss) := trow (b_idiom bk) r nf 0 n0 in
+  {| p_members := row_members r nf 0;
+     p_tree := b_tree bk;
+     p_branches := map (fun m => {| br_name := fst (fst m); br_var := m_name (snd m) |}) (combine r (row_members r nf 0));
+     p_book_extra := [];
+     p_body := Blk ds (app_stmts ss (app_stmts (trow_sets (b_idiom bk) r nf 0 n0)
+                                               (SCons (SFill (b_fill bk)) (trow_clears r nf 0)))) |}.
 
 (* ---------- reference semantics (streaming LINQ over the same data model and number operations) ---------- *)
 Fixpoint dpa (ev : event) (v : value) (a : pa) : res value :=
@@ -178,6 +257,30 @@ Fixpoint de (ev : event) (e : ex) : res value :=
   | EInt z => ROk (VInt z)
   | ECount k => dcount ev k
   | EBin o a b => rdo x <- de ev a; rdo y <- de ev b; arith (op_str o) x y
+  end.
+
+(* a vector column: the values of the body on the passing elements, in order, stored with the element type *)
+Fixpoint vec_loop (ev : event) (ty : string) (body : pa) (ps : list pred) (l : list value) (acc : list value) : res (list value) :=
+  match l with
+  | [] => ROk acc
+  | v :: r => rdo b <- passes ev v ps;
+              if b then rdo x <- dpa ev v body; vec_loop ev ty body ps r (acc ++ [conv ty x]) else vec_loop ev ty body ps r acc
+  end.
+Definition dcol (ev : event) (c : column) : res value :=
+  match c with
+  | ColScalar e => rdo v <- de ev e; ROk (conv (ex_type e) v)
+  | ColVec cr ps body =>
+      match assoc_ss (c_ctype cr, c_bank cr) (ev_colls ev) with
+      | None => RFault FRetrieve
+      | Some (VVec l) => rdo vs <- vec_loop ev (pa_type body) body ps l []; ROk (VVec vs)
+      | Some VNull => RFault FNullDeref
+      | Some _ => RStuck (KType "the bank does not hold a collection")
+      end
+  end.
+Fixpoint drow (ev : event) (r : row) : res (list value) :=
+  match r with
+  | [] => ROk []
+  | (_, c) :: t => rdo v <- dcol ev c; rdo vs <- drow ev t; ROk (v :: vs)
   end.
 
 (* when nothing faults, the streaming count is the length of the filtered list *)
@@ -233,6 +336,46 @@ Fixpoint d_ex_fuel (fuel : nat) (s : sexp) : option ex :=
     end
   end.
 Definition d_ex (s : sexp) : option ex := d_ex_fuel (S (sexp_depth s)) s.
+
+Definition d_col (s : sexp) : option (string * column) :=
+  match s with
+  | SList [SAtom name; SList [SAtom "scalar"; e]] => option_map (fun e' => (name, ColScalar e')) (d_ex e)
+  | SList [SAtom name; SList [SAtom "vec"; SAtom base; SAtom ct; SAtom bank; ar; SList ps; b]] =>
+      match d_bool ar, d_list d_pred ps, d_pa b with
+      | Some ar', Some ps', Some b' =>
+          Some (name, ColVec {| c_base := base; c_ctype := ct; c_bank := bank; c_arrow := ar' |} ps' b')
+      | _, _, _ => None
+      end
+  | _ => None
+  end.
+
+(* c01.fragrow: (idiom, tree, fill line, columns, first index) -> printed query code, class declaration, branches *)
+Definition run_fragrow (s : sexp) : sexp :=
+  match s with
+  | SList [SAtom idiom; SAtom tree; SAtom fill; SList cols; n0] =>
+      match d_list d_col cols, d_nat n0 with
+      | Some r, Some n =>
+          let p := prog_row {| b_idiom := idiom; b_tree := tree; b_fill := fill |} r n in
+          s_tag "ok" [s_strs (print_block (p_body p)); s_strs (print_members (p_members p));
+                      s_strs (map (fun b => br_name b +++ "=" +++ br_var b) (p_branches p))]
+      | _, _ => bad_input
+      end
+  | _ => bad_input
+  end.
+Definition run_denote_row (s : sexp) : sexp :=
+  match s with
+  | SList [SList cols; evs] =>
+      match d_list d_col cols, d_event evs with
+      | Some r, Some ev =>
+          match drow ev r with
+          | ROk vs => s_tag "ok" [SList (map s_value vs)]
+          | RFault f => s_tag "fault" [s_fault f]
+          | RStuck k => s_tag "stuck" [s_stuck k]
+          end
+      | _, _ => bad_input
+      end
+  | _ => bad_input
+  end.
 
 (* c01.frag: (idiom, tree, fill line, ex, first index) -> printed query code, class declaration, branch *)
 Definition run_frag (s : sexp) : sexp :=
